@@ -173,6 +173,11 @@ func ruleEntryWiring(c *Ctx) {
 				ds := defs[c.objOf(id)]
 				if len(ds) == 1 {
 					e = unparen(ds[0])
+					if e.Pos() < fcall.Pos() {
+						// read before the loader factory substituted the pseudo root for an empty base
+						baseOK = false
+						break
+					}
 				}
 			}
 			if p, ok := c.apath(e); ok && optID != nil && p.Root == c.objOf(optID) && lastStep(p) == "RelativeBase" {
@@ -255,6 +260,27 @@ func ruleOptsImmutable(c *Ctx) {
 		return true
 	})
 	c.ob(rule, c.funcName(cfd)+":copies-by-value", cfd.Pos(), copied, "the clone must be a by-value copy of the caller's struct")
+	retFresh := true
+	ast.Inspect(cfd.Body, func(n ast.Node) bool {
+		rs, ok := n.(*ast.ReturnStmt)
+		if !ok || len(rs.Results) != 1 {
+			return true
+		}
+		e := unparen(rs.Results[0])
+		if u, ok := e.(*ast.UnaryExpr); ok && u.Op == token.AND {
+			if id, ok := unparen(u.X).(*ast.Ident); ok && c.objOf(id) != p {
+				if _, isPtr := c.objOf(id).Type().(*types.Pointer); !isPtr {
+					return true
+				}
+			}
+			if _, ok := unparen(u.X).(*ast.CompositeLit); ok {
+				return true
+			}
+		}
+		retFresh = false
+		return true
+	})
+	c.ob(rule, c.funcName(cfd)+":returns-fresh", cfd.Pos(), retFresh, "the cloner hands back the caller's own pointer on some path: the loader factory and the transitive resolver then write the pseudo-root / visited-document location into the caller's struct")
 	// every function with an *ExpandOptions parameter that is exported (or is the context constructor): parameter only flows to the cloner, a nil test, or another exported function's options parameter
 	for _, f := range c.pkgFuncs() {
 		if f == cloner {
